@@ -77,6 +77,9 @@ def derive_seed(base: int, *parts) -> int:
 _DEFAULT_GUARD = True
 
 
+_RESETS = 0
+
+
 def reset_mygrad():
     """Bring MyGrad's process-global state back to its defaults so that a case is a pure
     function of the code under test."""
@@ -90,6 +93,13 @@ def reset_mygrad():
         mgr._depth = 0
         mgr._depth_tracker.clear()
     gc.collect()
+    global _RESETS
+    _RESETS += 1
+    if _RESETS % 64 == 0:
+        # whatever survived the collection belongs to the harness (Hypothesis' search tree, recorders): park it in the
+        # permanent generation so that the per-case collections do not re-traverse an ever growing heap (a long run
+        # was quadratic without this)
+        gc.freeze()
     _mem._array_counter.clear()
     _mem._array_tracker.clear()
     _mem._views_waiting_for_unlock.clear()
